@@ -21,17 +21,17 @@ Lemma run_refines_mono_l : forall fuel P st ic env n b,
   r_out (run fuel P st ic env n b) = q_out (run_mono fuel P (get_current_type_context st) ic env n b) /\
   r_cache (run fuel P st ic env n b) = q_cache (run_mono fuel P (get_current_type_context st) ic env n b) /\
   r_flag (run fuel P st ic env n b) = q_flag (run_mono fuel P (get_current_type_context st) ic env n b) /\
-  (flag_err (r_flag (run fuel P st ic env n b)) = false -> r_stack (run fuel P st ic env n b) = st).
+  r_stack (run fuel P st ic env n b) = st.
 Proof.
   induction fuel as [|f IH]; intros P st ic env n b.
-  - cbn. repeat split; try discriminate.
+  - cbn. repeat split.
   - destruct b as [|a r].
     + cbn. repeat split.
-    + destruct a as [ty|v ty|v m|g|k|].
+    + destruct a as [ty|v ty|v m|v m|g|k|].
       * (* AObs *)
         cbn [run run_mono r_out r_cache r_flag r_stack q_out q_cache q_flag].
         destruct (IH P st ic env n r) as [H1 [H2 [H3 H4]]].
-        rewrite H1, H2, H3. repeat split. rewrite <- H3. exact H4.
+        rewrite H1, H2, H3, H4. repeat split.
       * (* ADecl *)
         cbn [run run_mono]. apply IH.
       * (* ACall *)
@@ -39,48 +39,76 @@ Proof.
         destruct (lookup env v) as [rty|]; [|cbn; repeat split].
         destruct (enter P ic rty m) as [[[ic1 pushed] md]|]; [|cbn; repeat split].
         destruct pushed as [c|].
-        -- (* a generic instance: its context is pushed *)
+        -- (* a generic instance: its context is pushed, and popped whatever the outcome *)
            destruct (IH P (push_type_context c st) ic1 ((self_name, rty) :: m_params md) (pred n) (m_body md))
              as [H1 [H2 [H3 H4]]].
            change (get_current_type_context (push_type_context c st)) with (Some c) in H1, H2, H3.
-           rewrite <- H3.
+           rewrite <- H3. rewrite H4. change (pop_type_context (push_type_context c st)) with st.
            destruct (flag_err (r_flag (run f P (push_type_context c st) ic1 ((self_name, rty) :: m_params md)
                                           (pred n) (m_body md)))) eqn:E.
-           ++ repeat split; try assumption. intros Hc. rewrite E in Hc. discriminate.
-           ++ rewrite (H4 eq_refl). change (pop_type_context (push_type_context c st)) with st.
-              rewrite H2.
+           ++ cbn [r_out r_cache r_flag r_stack q_out q_cache q_flag]. repeat split; assumption.
+           ++ rewrite H2.
               destruct (IH P st (q_cache (run_mono f P (Some c) ic1 ((self_name, rty) :: m_params md) (pred n)
                                                    (m_body md))) env n r) as [G1 [G2 [G3 G4]]].
               cbn [r_out r_cache r_flag r_stack q_out q_cache q_flag].
-              rewrite H1, G1, G2, G3. repeat split. rewrite <- G3. exact G4.
+              rewrite H1, G1, G2, G3, G4. repeat split.
         -- (* a plain struct: nothing is pushed *)
            destruct (IH P st ic1 ((self_name, rty) :: m_params md) (pred n) (m_body md)) as [H1 [H2 [H3 H4]]].
-           rewrite <- H3.
+           rewrite <- H3. rewrite H4.
            destruct (flag_err (r_flag (run f P st ic1 ((self_name, rty) :: m_params md) (pred n) (m_body md)))) eqn:E.
-           ++ repeat split; try assumption. intros Hc. rewrite E in Hc. discriminate.
-           ++ rewrite (H4 eq_refl). rewrite H2.
+           ++ cbn [r_out r_cache r_flag r_stack q_out q_cache q_flag]. repeat split; assumption.
+           ++ rewrite H2.
               destruct (IH P st (q_cache (run_mono f P (get_current_type_context st) ic1
                                                    ((self_name, rty) :: m_params md) (pred n) (m_body md))) env n r)
                 as [G1 [G2 [G3 G4]]].
               cbn [r_out r_cache r_flag r_stack q_out q_cache q_flag].
-              rewrite H1, G1, G2, G3. repeat split. rewrite <- G3. exact G4.
+              rewrite H1, G1, G2, G3, G4. repeat split.
+      * (* ATry *)
+        cbn [run run_mono].
+        destruct (lookup env v) as [rty|]; [|cbn; repeat split].
+        destruct (enter P ic rty m) as [[[ic1 pushed] md]|]; [|apply IH].
+        destruct pushed as [c|].
+        -- destruct (IH P (push_type_context c st) ic1 ((self_name, rty) :: m_params md) (pred n) (m_body md))
+             as [H1 [H2 [H3 H4]]].
+           change (get_current_type_context (push_type_context c st)) with (Some c) in H1, H2, H3.
+           rewrite H4. change (pop_type_context (push_type_context c st)) with st. rewrite H2.
+           destruct (IH P st (q_cache (run_mono f P (Some c) ic1 ((self_name, rty) :: m_params md) (pred n)
+                                                (m_body md))) env n r) as [G1 [G2 [G3 G4]]].
+           cbn [r_out r_cache r_flag r_stack q_out q_cache q_flag].
+           rewrite H1, G1, G2, G3, G4. repeat split.
+        -- destruct (IH P st ic1 ((self_name, rty) :: m_params md) (pred n) (m_body md)) as [H1 [H2 [H3 H4]]].
+           rewrite H4. rewrite H2.
+           destruct (IH P st (q_cache (run_mono f P (get_current_type_context st) ic1
+                                                ((self_name, rty) :: m_params md) (pred n) (m_body md))) env n r)
+             as [G1 [G2 [G3 G4]]].
+           cbn [r_out r_cache r_flag r_stack q_out q_cache q_flag].
+           rewrite H1, G1, G2, G3, G4. repeat split.
       * (* AFn *)
         cbn [run run_mono].
         destruct (enter_fn P g) as [md|]; [|cbn; repeat split].
         destruct (IH P st ic (m_params md) (pred n) (m_body md)) as [H1 [H2 [H3 H4]]].
         rewrite <- H3.
         destruct (flag_err (r_flag (run f P st ic (m_params md) (pred n) (m_body md)))) eqn:E.
-        -- repeat split; try assumption. intros Hc. rewrite E in Hc. discriminate.
-        -- rewrite (H4 eq_refl). rewrite H2.
+        -- repeat split; assumption.
+        -- rewrite H4. rewrite H2.
            destruct (IH P st (q_cache (run_mono f P (get_current_type_context st) ic (m_params md) (pred n) (m_body md)))
                         env n r) as [G1 [G2 [G3 G4]]].
            cbn [r_out r_cache r_flag r_stack q_out q_cache q_flag].
-           rewrite H1, G1, G2, G3. repeat split. rewrite <- G3. exact G4.
+           rewrite H1, G1, G2, G3, G4. repeat split.
       * (* ARetIf *)
         cbn [run run_mono]. destruct (n <=? k); [cbn; repeat split | apply IH].
       * (* AFail *)
-        cbn. repeat split; try discriminate.
+        cbn. repeat split.
 Qed.
+
+(* the stack is the same after ANY outcome of any body: normal end, early return, run-time error, fuel *)
+Lemma stack_restored_l : forall fuel P st ic env n b, r_stack (run fuel P st ic env n b) = st.
+Proof. intros. apply run_refines_mono_l. Qed.
+
+(* a caller that catches the callee's error finds its own context again *)
+Lemma try_restores_context_l : forall fuel P st ic env n v m ty,
+  resolve_type_in_context (stack_after_try fuel P st ic env n v m) ty = resolve_type_in_context st ty.
+Proof. intros. unfold stack_after_try. rewrite stack_restored_l. reflexivity. Qed.
 
 (* ------------------------------------------------------------------ (2) the instance registry *)
 Definition cache_ok (P : program) (ic : icache) : Prop :=
@@ -154,15 +182,19 @@ Proof.
   induction fuel as [|f IH]; intros P st ic env n b Hok.
   - exact Hok.
   - destruct b as [|a r]; [exact Hok|].
-    destruct a as [ty|v ty|v m|g|k|]; cbn [run].
+    destruct a as [ty|v ty|v m|v m|g|k|]; cbn [run].
     + cbn [r_cache]. apply IH. exact Hok.
     + apply IH. exact Hok.
     + destruct (lookup env v) as [rty|]; [|exact Hok].
       destruct (enter P ic rty m) as [[[ic1 pushed] md]|] eqn:E; [|exact Hok].
       pose proof (enter_cache_ok _ _ _ _ _ _ _ Hok E) as Hok1.
       match goal with |- context [flag_err (r_flag ?x)] => destruct (flag_err (r_flag x)) end.
-      * apply IH. exact Hok1.
+      * cbn [r_cache]. apply IH. exact Hok1.
       * cbn [r_cache]. apply IH. apply IH. exact Hok1.
+    + destruct (lookup env v) as [rty|]; [|exact Hok].
+      destruct (enter P ic rty m) as [[[ic1 pushed] md]|] eqn:E; [|apply IH; exact Hok].
+      pose proof (enter_cache_ok _ _ _ _ _ _ _ Hok E) as Hok1.
+      cbn [r_cache]. apply IH. apply IH. exact Hok1.
     + destruct (enter_fn P g) as [md|]; [|exact Hok].
       match goal with |- context [flag_err (r_flag ?x)] => destruct (flag_err (r_flag x)) end.
       * apply IH. exact Hok.
@@ -411,62 +443,17 @@ Proof.
 Qed.
 
 
-(* ------------------------------------------------------------------ (3b) the type arguments of a flat struct type name *)
-Lemma ident_nonblank : forall a, ident_char a -> is_blank a = false.
+(* ------------------------------------------------------------------ (3b) the type arguments of a struct type name *)
+(* for EVERY well-formed type expression Base<t1, ..., tk> (Names.wf: any nesting depth, any arity inside):
+   the arguments find_impl_for_struct cuts out are the spellings of t1 ... tk *)
+Lemma impl_type_args_nested_l : forall b args, wf (TApp b args) ->
+  impl_type_args (show (TApp b args)) = Some (b, map show args).
 Proof.
-  intros a H. unfold is_blank. unfold ident_char in H.
-  rewrite (eqb_neq a c_sp), (eqb_neq a c_tab); [reflexivity | tauto | tauto].
-Qed.
-
-Lemma ident_starts : forall n, ident n -> starts_nonblank n.
-Proof.
-  intros [|a n] [Hne H]; [congruence|]. inversion H as [|? ? Ha _]; subst.
-  exists a, n. split; [reflexivity | apply ident_nonblank; exact Ha].
-Qed.
-
-Lemma ident_ends : forall n, ident n -> ends_nonblank n.
-Proof.
-  intros n [Hne H]. destruct (exists_last Hne) as [w' [z Hw]]. exists w', z. split; [exact Hw|].
-  apply ident_nonblank. rewrite Forall_forall in H. apply H. rewrite Hw. apply in_or_app. right. left. reflexivity.
-Qed.
-
-Lemma split_commas_run : forall x rest cur, ~ In c_comma x ->
-  split_commas (x ++ rest) cur = split_commas rest (cur ++ x).
-Proof.
-  induction x as [|a x IH]; intros rest cur Hx; simpl.
-  - rewrite app_nil_r. reflexivity.
-  - rewrite (eqb_neq a c_comma); [|intros E; apply Hx; left; exact E].
-    rewrite IH; [|intros H; apply Hx; right; exact H]. rewrite <- app_assoc. reflexivity.
-Qed.
-
-Lemma split_commas_fold : forall a, Forall ident a -> a <> [] ->
-  forall cur acc, Forall (fun ch => is_blank ch = true) cur ->
-  fold_left push_trimmed (split_commas (join_with sep a) cur) acc = acc ++ a.
-Proof.
-  induction a as [|x r IH]; intros Hf Hne cur acc Hcur; [congruence|].
-  inversion Hf as [|? ? Hx Hr]; subst.
-  destruct r as [|y r'].
-  - cbn [join_with]. rewrite <- (app_nil_r x) at 1.
-    rewrite (split_commas_run x [] cur (ident_no_comma x Hx)). cbn [split_commas fold_left].
-    unfold push_trimmed. rewrite (trim_blanks_prefix cur x Hcur (ident_starts x Hx) (ident_ends x Hx)). reflexivity.
-  - rewrite join_sep_cons2.
-    rewrite (split_commas_run x _ cur (ident_no_comma x Hx)).
-    cbn [split_commas]. change (Ascii.eqb c_comma c_comma) with true. cbv iota.
-    change (Ascii.eqb c_sp c_comma) with false. cbv iota.
-    cbn [fold_left]. unfold push_trimmed at 2.
-    rewrite (trim_blanks_prefix cur x Hcur (ident_starts x Hx) (ident_ends x Hx)).
-    change ([] ++ [c_sp]) with [c_sp].
-    rewrite IH; [rewrite <- app_assoc; reflexivity | exact Hr | discriminate |].
-    constructor; [reflexivity | constructor].
-Qed.
-
-Lemma impl_type_args_flat_l : forall b a, ident b -> a <> [] -> Forall ident a ->
-  impl_type_args (show_f (FApp b a)) = Some (b, a).
-Proof.
-  intros b a Hb Hne Ha. unfold impl_type_args, show_f.
-  set (J := join_with sep a).
+  intros b args Hwf. apply wf_app_forall in Hwf. destruct Hwf as [Hb [Hne Ha]].
+  unfold impl_type_args. cbn [show].
+  set (J := join_with sep (map show args)).
   change (b ++ [c_lt] ++ J ++ [c_gt]) with (b ++ c_lt :: (J ++ [c_gt])).
-  rewrite (find_char_app c_lt b _ (ident_no_lt b Hb)).
+  rewrite (find_char_app c_lt b _ (clean_no_lt b Hb)).
   replace (b ++ c_lt :: J ++ [c_gt]) with ((b ++ c_lt :: J) ++ [c_gt]) by (rewrite <- app_assoc; reflexivity).
   rewrite rfind_char_last.
   replace ((b ++ c_lt :: J) ++ [c_gt]) with (b ++ c_lt :: (J ++ [c_gt])) by (rewrite <- app_assoc; reflexivity).
@@ -480,17 +467,22 @@ Proof.
   replace (List.length (b ++ [c_lt]) + List.length J - List.length b - 1) with (List.length J)
     by (rewrite app_length; simpl; lia).
   rewrite firstn_app_exact.
-  unfold J. rewrite (split_commas_fold a Ha Hne [] []); [reflexivity | constructor].
+  unfold J. rewrite (split_top_level args Ha Hne [] []); [reflexivity | constructor].
 Qed.
 
-(* the instance of Base<a1, ..., ak>: the first generic impl of Base with k parameters, parameter i bound to ai *)
-Lemma fresh_inst_flat_l : forall P b a k blk, ident b -> a <> [] -> Forall ident a ->
-  find_generic P b (List.length a) = Some (k, blk) ->
-  fresh_inst P (show_f (FApp b a)) =
-  Some {| i_block := k; i_map := build_map (b_params blk) a; i_generic := negb (strs_eqb a (b_params blk)) |}.
+(* the instance of Base<t1, ..., tk>: the first generic impl of Base with k parameters, parameter i bound to the
+   spelling of ti - a nested or tuple-typed argument (Cell<Duo<int, long>>) is ONE argument *)
+Lemma fresh_inst_nested_l : forall P b args k blk, wf (TApp b args) ->
+  find_generic P b (List.length args) = Some (k, blk) ->
+  fresh_inst P (show (TApp b args)) =
+  Some {| i_block := k; i_map := build_map (b_params blk) (map show args);
+          i_generic := negb (strs_eqb (map show args) (b_params blk)) |}.
 Proof.
-  intros P b a k blk Hb Hne Ha Hg. unfold fresh_inst. rewrite (impl_type_args_flat_l b a Hb Hne Ha).
-  destruct a as [|x r]; [congruence|]. rewrite Hg. reflexivity.
+  intros P b args k blk Hwf Hg. unfold fresh_inst. rewrite (impl_type_args_nested_l b args Hwf).
+  apply wf_app_forall in Hwf. destruct Hwf as [_ [Hne _]].
+  rewrite <- (map_length show args) in Hg.
+  destruct (map show args) as [|x r] eqn:E; [destruct args; [congruence | discriminate]|].
+  rewrite Hg. reflexivity.
 Qed.
 
 (* ------------------------------------------------------------------ (4) refuted, with witnesses *)
@@ -506,25 +498,28 @@ Proof. split; [vm_compute; reflexivity | vm_compute; discriminate]. Qed.
 Definition w_bytes : method := {| m_params := []; m_body := [AObs w_T] |}.
 Definition w_cell : block := {| b_base := s2l "Cell"; b_params := [w_T]; b_methods := [(s2l "bytes", w_bytes)] |}.
 
-(* find_impl_for_struct cuts the type arguments at EVERY comma: Cell<Duo<int, long>> has "two" arguments, no
-   impl of Cell matches, the method call fails - while Cell<Box<long>> finds its instance *)
-Lemma impl_type_args_nested_refuted_l :
-  impl_type_args (s2l "Cell<Duo<int, long>>") = Some (s2l "Cell", [s2l "Duo<int"; s2l "long>"]) /\
-  fresh_inst [w_cell] (s2l "Cell<Duo<int, long>>") = None /\
+(* repaired finding C11-impl-tuple-type-argument (d6bac56): Cell<Duo<int, long>> has ONE type argument *)
+Lemma tuple_type_argument_example_l :
+  impl_type_args (s2l "Cell<Duo<int, long>>") = Some (s2l "Cell", [s2l "Duo<int, long>"]) /\
+  fresh_inst [w_cell] (s2l "Cell<Duo<int, long>>") =
+    Some {| i_block := 0; i_map := [(w_T, s2l "Duo<int, long>")]; i_generic := true |} /\
   fresh_inst [w_cell] (s2l "Cell<Box<long>>") = Some {| i_block := 0; i_map := [(w_T, s2l "Box<long>")]; i_generic := true |}.
 Proof. repeat split; vm_compute; reflexivity. Qed.
 
-(* a run-time error inside a callee of another instantiation leaves the callee's context on the stack:
-   a caller that catches it (`try o.fail()`) goes on with T bound to the callee's type argument *)
-Definition w_fail : method := {| m_params := []; m_body := [AFail] |}.
+(* repaired finding C11-try-leaks-type-context (70336ad): a caller of Cell<int> that catches the error of a
+   Cell<long> callee observes int before and after *)
+Definition w_fail : method := {| m_params := []; m_body := [AObs w_T; AFail] |}.
+Definition w_try : method :=
+  {| m_params := [(s2l "o", s2l "Cell<long>")];
+     m_body := [AObs w_T; ATry (s2l "o") (s2l "fail"); AObs w_T] |}.
 Definition w_cell2 : block :=
-  {| b_base := s2l "Cell"; b_params := [w_T]; b_methods := [(s2l "bytes", w_bytes); (s2l "fail", w_fail)] |}.
+  {| b_base := s2l "Cell"; b_params := [w_T];
+     b_methods := [(s2l "bytes", w_bytes); (s2l "fail", w_fail); (s2l "tr", w_try)] |}.
 
-Lemma error_leaves_context_refuted_l :
-  let st := [w_ctx_int] in
-  let st' := stack_after_try 5 [w_cell2] st [] [(s2l "o", s2l "Cell<long>")] 1 (s2l "o") (s2l "fail") in
-  st' <> st /\ resolve_type_in_context st w_T = s2l "int" /\ resolve_type_in_context st' w_T = s2l "long".
-Proof. cbv zeta. split; [|split]; vm_compute; [discriminate | reflexivity | reflexivity]. Qed.
+Lemma try_example_l :
+  r_out (run_main 20 [w_cell2] [] (s2l "Cell<int>") (s2l "tr") 3) = [s2l "int"; s2l "long"; s2l "int"] /\
+  r_flag (run_main 20 [w_cell2] [] (s2l "Cell<int>") (s2l "tr") 3) = FNorm.
+Proof. split; vm_compute; reflexivity. Qed.
 
 (* known finding C11-impl-local-struct-of-T: a local declared `Box<T> l;` inside a method of Cell<T> keeps the struct
    type name "Box<T>"; a method of impl ... for Box<E> called on it runs with E bound to the TEXT "T" (which the pushed
